@@ -18,9 +18,10 @@ CMDS_2 = ["hdr", "value", "pdu", "msg1", "msg2", "msg3", "dec_real", "dec_int"]
 # the five crashing inputs of the pinned commit (fixed since); kept as a corpus that runs first
 CORPUS = ["hdr 1f80", "hdr 308201", "msg2 1f80", "msg1 308201", "msg3 1f80",
           "pdu a20d0201010201000201003002" + "3000",
-          "pdu a21c020101020100020100301130" + "0706012b0201003006" + "0d01050500",
           "op get a20e02010102010002010030033001" + "00", "value 090180", "value 09028000", "value 090401343536",
-          "dec_int 0209ffffffffffffffffff", "dec_int 0208ffffffffffffffff", "relnorm 05 2b", "relnorm - 2b", "relnorm 0102 -"]
+          "dec_int 0209ffffffffffffffffff", "dec_int 0208ffffffffffffffff",
+          "pdu a216020101020100020100300b300506012b050030020d00", "pdu a218020101020100020100300d30040600050030050d01050500",
+          "pdu a21b0201010201000201003010300706032b0201050030050d01050500"]
 
 
 def main(argv):
@@ -76,7 +77,10 @@ def main(argv):
         if rng.random() < 0.2:
             lines.append("op %s %s" % (rng.choice(["get", "getmany"]), gen.hx(p if rng.random() < 0.5 else gen.mutate(rng, p))))
         if rng.random() < 0.1:
-            lines.append("relnorm %s %s" % (gen.hx(gen.rbytes(rng, rng.randint(0, 5))), gen.hx(gen.rbytes(rng, rng.randint(0, 6)))))
+            # relative-OID normalisation against an arbitrary previous name
+            b0 = ber.varbind(ber.tlv(6, gen.rbytes(rng, rng.randint(0, 6))), b"\x05\x00")
+            b1 = ber.tlv(0x30, ber.tlv(0x0D, gen.rbytes(rng, rng.randint(0, 5))) + b"\x05\x00")
+            lines.append("pdu " + ber.pdu(0xA2, 1, 0, 0, [b0, b1]).hex())
         if rng.random() < 0.1:
             k, v = gen.rvalue(rng)
             lines.append("value " + gen.hx(gen.mutate(rng, gen.enc_rvalue(rng, k, v))))
